@@ -91,7 +91,7 @@ def main():
         "version": 1,
         "setup_cmd": "./setup.sh",
         "hooks": {"guard": "asynchronix_verif", "enable": "RUSTFLAGS='--cfg asynchronix_verif' (only used to replay finding F4; the proofs extract from unmodified sources)",
-                  "baseline_off_cmd": "cd /repo && cargo test --workspace --no-fail-fast --offline", "source_commits": [], "add_only": True},
+                  "baseline_off_cmd": "cd /repo && cargo test --workspace --no-fail-fast --offline", "source_commits": ["a47bf58275e0690da0183f478b76270ded0ebbd7", "c8939aeaa339aae2c0ded1d451ca3dcee517b2b7"], "add_only": True},
         "engines": [{"name": "vk", "path": "/verif/vk", "serves_properties": sorted(CLAIMS),
                      "kind_free_text": "contract templates (/verif/contracts) + mechanical extraction and token merge from /repo + Verus (unbounded) / Kani (complete or bounded, labelled)"}],
         "checks": checks,
